@@ -129,6 +129,7 @@ class Family:
         self.irregular = "irregular" in parts[2:]            # seed-sensitive load shapes
         self.occupancy = self.kind == "hourly" and self.profile.startswith("supp")
         self.oddcells = "oddcells" in parts[2:]              # a few (month, weekday) cells with a load shape of their own (holiday weekends)
+        self.edgegaps = "edgegaps" in parts[2:]              # missing hours within a day of the first / last timestamp of the frame
         self.timer = "timer" in parts[2:]                    # a timer-driven load: exactly the same daily schedule all year, no noise
 
     # ---- classes ------------------------------------------------------------------------------------
@@ -163,6 +164,15 @@ class Family:
             return tdf.join(bdf).iloc[:-1]
         df = synth_hourly(tz=tz, start=start or "2018-01-01", days=days, seed=rng, ghi=self.ghi, noise=noise,
                           irregular=self.irregular, occupancy=self.occupancy, occupancy_name=OCC_NAME)
+        if self.edgegaps and len(df) > 400:
+            oc, tc_ = df.columns.get_loc("observed"), df.columns.get_loc("temperature")
+            df.iloc[26:33, oc] = np.nan
+            df.iloc[3:5, oc] = np.nan
+            df.iloc[-100:-92, oc] = np.nan
+            df.iloc[-9:-6, oc] = np.nan
+            df.iloc[40:43, tc_] = np.nan
+            df.iloc[-60:-57, tc_] = np.nan
+            df.iloc[-4:-2, tc_] = np.nan
         if self.timer:
             sched = np.array([2, 2, 2, 2, 2, 3, 5, 8, 9, 9, 9, 9, 8, 9, 9, 9, 8, 6, 5, 4, 3, 3, 2, 2], dtype=float)
             df["observed"] = sched[df.index.hour.values]
